@@ -314,11 +314,14 @@ BadS(S, reason, detail) == [S EXCEPT !.skip = TRUE, !.bad = reason, !.det = deta
 
 OnCase(S, e) == [Idle EXCEPT !.id = e.id, !.hdr = e, !.st = "case"]
 
+SameKind(v) == [i \in 1..Len(v) |-> IF v[i] = "S" THEN "E" ELSE v[i]]
 OnBuild(S, e) ==
   LET ops == S.hdr.ops IN
   IF S.st # "case" THEN BadS(S, "build-line-out-of-place", "")
   ELSE IF Len(e.att) = 0 THEN BadS(S, "no-attempt", "")
-  ELSE IF C20On /\ \E a \in 2..Len(e.att) : e.att[a] # e.att[1] THEN BadS(S, "outcome-not-deterministic", "")
+  \* attempts are compared as accepted? / which calls failed / panic -- not by WHICH error a multi-cause rejection reports (picked by map
+  \* iteration: with two independent conflicts in a workflow the first Compile reports either, and only one of them is the sticky kind)
+  ELSE IF C20On /\ \E a \in 2..Len(e.att) : SameKind(e.att[a]) # SameKind(e.att[1]) THEN BadS(S, "outcome-not-deterministic", "")
   ELSE LET outs == e.att[1]  why == OutcomeWhy(S.hdr, ops, outs) IN
        IF why # "" THEN BadS(S, why, OutcomeDetail(S.hdr, ops, outs))
        ELSE LET jc == FirstCompiled(ops, outs) IN [S EXCEPT !.st = "built", !.jc = jc, !.acc = Accepted(ops, outs, jc)]
